@@ -73,6 +73,7 @@ where
     pub open spec fn closed<G: IntoNeighbors<NodeId = N>>(&self, g: G) -> bool { closed_of(g, self.discovered.vset(), self.stack@) }
     /// memory-safety side: the map has room for every node, and only nodes are on the stack
     pub open spec fn safe<G: IntoNeighbors<NodeId = N>>(&self, g: G) -> bool {
+        &&& g.inv()
         &&& forall|a: N| g.is_node(a) ==> #[trigger] self.discovered.holds(a)
         &&& forall|i: int| 0 <= i < self.stack@.len() ==> g.is_node(#[trigger] self.stack@[i])
     }
@@ -338,6 +339,7 @@ where
 {
     /// queue members are discovered nodes of the graph, each queued once; the map has room for every node
     pub open spec fn bwf<G: IntoNeighbors<NodeId = N>>(&self, g: G) -> bool {
+        &&& g.inv()
         &&& forall|a: N| g.is_node(a) ==> #[trigger] self.discovered.holds(a)
         &&& forall|i: int| 0 <= i < self.stack@.len() ==> g.is_node(#[trigger] self.stack@[i]) && self.discovered.vset().contains(self.stack@[i])
         &&& seq_no_dup(self.stack@)
